@@ -83,16 +83,25 @@ func solve(query string, file string, timeoutS int, seed int, all bool) *SolveRe
 	}
 	var results []*SolveResult
 	var best *SolveResult
+	// thorough tier: once one back end has decided, the others get a grace period
+	// to agree or disagree (string goals make both z3 versions run into the timeout)
+	var grace <-chan time.Time
+loop:
 	for range solvers {
-		r := <-ch
-		results = append(results, r)
-		if r.Status != "unknown" {
-			if best == nil {
-				best = r
+		select {
+		case r := <-ch:
+			results = append(results, r)
+			if r.Status != "unknown" {
+				if best == nil {
+					best = r
+					grace = time.After(15 * time.Second)
+				}
+				if !all {
+					break loop
+				}
 			}
-			if !all {
-				break
-			}
+		case <-grace:
+			break loop
 		}
 	}
 	if best == nil {
